@@ -1794,7 +1794,10 @@ func c07Generate(r *Rand, maxOps int, canonURI bool) *c07Gen {
 		case k < 88: // additional lines; often about a reference the header already has
 			txt := g.text(H.Version == "" && r.coin(1, 2), r.coin(1, 4))
 			if n := len(H.Refs()); n > 0 && r.coin(1, 3) {
-				txt = g.knownRefLine(H.Refs()[r.intn(n)]) + "\n" + txt
+				if txt != "" && !strings.HasSuffix(txt, "\n") {
+					txt += "\n"
+				}
+				txt += g.knownRefLine(H.Refs()[r.intn(n)]) + "\n" // last, so that an error does not hide the other lines
 			}
 			g.emit(c07Op{K: "um", H: h, S: txt})
 		case k < 90:
